@@ -7,7 +7,7 @@ ID = 'C15'
 TITLE = 'derived schemes: measure, polynomial exactness, mirrors, Duffy'
 LEVEL = 'exploration'
 RULE = ('every tabulated unweighted base rule (log, log-log, sqrt, 1/sqrt families with polynomial degree >= 0, and '
-        'Gauss-Legendre of every odd order up to 23) x every constructor (map to interval, mirror, ProductScheme2D, '
+        'Gauss-Legendre of every odd order up to 23, and 29, 31: up to 16 nodes per direction, 24 576 nodes in the 3-D Duffy rules) x every constructor (map to interval, mirror, ProductScheme2D, '
         'mirror_x/y, DuffyScheme2D symmetric and not, ProductScheme3D, mirror_x/y/z, DuffySchemeIdentical3D symmetric '
         'and not, DuffySchemeTouch3D) x sampled target boxes with sides log-uniform in [1e-4,1e3]: integrate(1) equals '
         'the measure and every monomial (in box-local coordinates, and mirrored) of the stated degree range is '
@@ -42,7 +42,7 @@ def base_rules():
         for key, _ in c05.branches(src, c05.FAMILIES[fam][0]):
             if key[0] >= 0:
                 out.append((fam, key, key[0]))
-    for n in range(1, 24, 2):
+    for n in list(range(1, 24, 2)) + [29, 31]:
         out.append(('gauss', n, n))
     return out
 
@@ -252,7 +252,7 @@ def run_shard(spec, acc):
             acc.violation('duffy-sym-differs:2d', 'symmetric %.17g vs non-symmetric %.17g' % (v2, v1), {'family': fam, 'key': key})
         # ------------------------------------------------------------ 3-D
         n1 = len(s1.points)
-        if n1 > 13:
+        if n1 > 16:
             continue
         p3 = Q.ProductScheme3D(s1)
         boxes3 = []
